@@ -544,6 +544,35 @@ pub fn gen_structured(rng: &mut Rng, o: &ProgOpts) -> Built {
     }
 }
 
+/// Small images aimed at what a run loop or a "compatibility" special case could get wrong:
+/// instructions that jump to themselves (the reference just keeps running until the step budget),
+/// HALT written with its reserved bits set, loads and stores through pointers to the addresses
+/// other LC-3 systems map devices to (plain memory here), with bit 15 of the data both ways.
+pub fn directed_raw_image(k: u64) -> Vec<u16> {
+    const SPECIAL: [u16; 8] = [0xFE00, 0xFE02, 0xFE04, 0xFE06, 0xFFFC, 0xFFFE, 0xFDFF, 0xFFFF];
+    let k = k as usize;
+    let orig = [0x3000u16, 0x0200, 0x8000, 0xFD00][k % 4];
+    let body: Vec<u16> = match (k / 4) % 12 {
+        0 => vec![0x5020, 0x0FFF, 0xF025],                         // AND R0,R0,#0 ; BRnzp self
+        1 => vec![0xE200, 0xC040, 0xF025],                         // LEA R1,#0 ; JMP R1 (to itself)
+        2 => vec![0x4FFF, 0xF025],                                 // JSR self
+        3 => vec![0xE201, 0x4040, 0x1021, 0xF025],                 // LEA R1,#1 ; JSRR R1 -> falls through once (R1 = next)
+        4 => vec![0x1021, 0xF125],                                 // HALT with reserved bits
+        5 => vec![0x1021, 0xFF25, 0x1021],
+        6 => vec![0xF325],
+        _ => {
+            // STI / LDI / ST+LD through a pointer to a special address, data with bit 15 clear or set
+            let sp = SPECIAL[(k / 48) % 8];
+            let data = [0x0000u16, 0x7FFF, 0x8000, 0x1234][(k / 4) % 4];
+            // 0: LD R0,data  1: STI R0,ptr  2: LDI R1,ptr  3: ADD R2,R1,#1  4: OUT-less marker ADD  5: HALT  6: ptr 7: data
+            vec![0x2006, 0xB004, 0xA203, 0x1461, 0x16E1, 0xF025, sp, data]
+        }
+    };
+    let mut v = vec![orig];
+    v.extend(body);
+    v
+}
+
 /// Arbitrary word image (origin word first), biased towards decodable instructions.
 pub fn gen_raw_image(rng: &mut Rng) -> Vec<u16> {
     let orig: u16 = match rng.below(8) {
